@@ -419,7 +419,9 @@ class Query:
 
         :return: CreateQueryBuilder
         """
-        return CreateQueryBuilder().create_table(table)
+        builder = CreateQueryBuilder()
+        builder.QUERY_CLS = cls  # str() of the statement follows the dialect class it was created through
+        return builder.create_table(table)
 
     @classmethod
     def drop_table(cls, table: str | Table) -> "DropQueryBuilder":
@@ -431,7 +433,9 @@ class Query:
 
         :return: DropQueryBuilder
         """
-        return DropQueryBuilder().drop_table(table)
+        builder = DropQueryBuilder()
+        builder.QUERY_CLS = cls  # str() of the statement follows the dialect class it was created through
+        return builder.drop_table(table)
 
     @classmethod
     def into(cls, table: Table | str, **kwargs: Any) -> "QueryBuilder":
